@@ -96,7 +96,10 @@ OTHER = ["UTC", "GMT", "Nowhere/None", "abc", "EST", "EDT", "CET", ":Zone/F0",
 # with the time module alone, no dateutil involved). Such settings would make
 # any history-independence oracle report libc, not dateutil.
 TZ_SETTINGS = [None, "EST5EDT,M3.2.0,M11.1.0", "CET-1CEST,M3.5.0,M10.5.0/3",
-               "UTC", "WET0", "XYZ0", "GMT0"]
+               "UTC", "WET0", "XYZ0", "GMT0",
+               # the TZ variable naming a zone FILE (found in the simulated
+               # tree by gettz() / gettz(""), unknown to the C library)
+               ":Zone/F1", "Zone/F2"]
 
 OFF_NAMES = ["A", "B", None]
 OFFSETS = [0, 3600, -18000, 19800, 1, -86399, 1172.5, -0.000001]
@@ -696,8 +699,10 @@ class Actor(object):
             api = key[0]
             # results for None / "" depend on the process TZ, like local
             # zones: no identity obligation across requests
+            # (the empty string IS a key: what it resolves to -- unless that
+            # is a local zone -- is indexed under "" like any other name)
             local = api == "gettz" and (isinstance(obj, sim.tz.tzlocal) or
-                                        not op[2])
+                                        op[2] is None)
             prov = self.provenance(op, obj)
             o = None if obj is None else sim.reg.ordinal(obj, api, prov)
             req["ord"] = o
